@@ -458,6 +458,12 @@ func (e *Engine) Assert(c *Term, label string, known string, excuse *Term) {
 		res.mu.Lock()
 		res.Asserts[label]++
 		res.mu.Unlock()
+		if !active {
+			// PC is satisfiable and entails c: adding c keeps it satisfiable, no feasibility check needed
+			e.sol.Assert(c)
+			e.intervalLearn(c, true)
+			return
+		}
 	}
 	// continue under the assertion
 	e.Assume(c)
@@ -806,7 +812,11 @@ func (e *Engine) finishPath(out pathEnd) {
 		}
 	}
 	if out.kind != "ok" && out.kind != "infeasible" {
-		res.Sites[out.kind+": "+out.msg]++
+		k := out.kind + ": " + out.msg
+		if out.kind == "unknown" {
+			k += fmt.Sprintf(" choices=%v", e.choices)
+		}
+		res.Sites[k]++
 	}
 	if len(res.Samples) < 3 && out.kind == "ok" {
 		res.Samples = append(res.Samples, e.sampleString())
